@@ -306,6 +306,13 @@ class StmtMixin:
                     else:
                         h.vars[v] = V("ref", fresh("lv_" + v), hint if hint is not None else (old.py if old is not None and old.kind == "ref" else None))
             for fld, ref in (lspec.modifies(LoopCtx(self, s, entry, None, seq)) if hasattr(lspec, "modifies") else []):
+                if callable(ref):
+                    old = h.field(fld)
+                    new = fresh("lmodset_" + fld.replace(":", "_"), field_sort(fld))
+                    r = z3.Int("r!lms")
+                    h.heap[fld] = new
+                    h.assume(z3.ForAll([r], z3.Implies(z3.Not(ref(r)), z3.Select(new, r) == z3.Select(old, r))))
+                    continue
                 rt = ref if z3.is_expr(ref) else ref.t
                 h.put(fld, rt, fresh("lh_" + fld.replace(":", "_"), field_sort(fld).range()))
             if getattr(lspec, "trace", True) and s.todo is not None:
